@@ -1391,19 +1391,25 @@ class Kconfig(object):
 
             value_is_default = False
             sym: Symbol
-            for linenr, line in enumerate(f, 1):
+            lines = f.readlines()
+            for linenr, line in enumerate(lines, 1):
                 # The C tools ignore trailing whitespace
                 line = line.rstrip()
+                # The title of a menu or comment is written as three lines "#", "# <title>", "#". Whatever the title
+                # says, it is not one of the markers below.
+                is_title = (
+                    1 < linenr < len(lines) and lines[linenr - 2].rstrip() == "#" and lines[linenr].rstrip() == "#"
+                )
                 # If "# default:" is present, the assignment on the next line will be considered a default value
-                if line and line.strip() == self.comment_default_value:
+                if line and not is_title and line.strip() == self.comment_default_value:
                     value_is_default = True
                     continue
 
-                if line and line.strip() == DEP_OP_BEGIN:
+                if line and not is_title and line.strip() == DEP_OP_BEGIN:
                     in_deprecated_block = True
                     value_is_default = False
                     continue
-                elif line and line.strip() == DEP_OP_END:
+                elif line and not is_title and line.strip() == DEP_OP_END:
                     in_deprecated_block = False
                     value_is_default = False
                     continue
